@@ -91,13 +91,16 @@ def selftest(prop, mod, tier_jobs=12):
                     return {"name": v["name"], "ok": False, "why": "edit anchor not found in %s (self-test skipped: source changed)" % ed["file"], "skipped": True}
                 s = s.replace(ed["old"], ed["new"], ed.get("count", 1))
                 open(fp, "w").write(s)
-            try:
-                cx, _ = evaluate(prop, dst, "quick", use_cache=False, target_dir=os.path.join(tmp, "tgt"))
-            except ExtractError as e:
-                return {"name": v["name"], "ok": False, "why": "variant does not compile: " + str(e)[-400:]}
-            fired = sorted({vi["instance"] for inst in cx.instances for vi in inst.violations})
-            known = {k["key"] for k in load_known() if k.get("status") == "known"}
-            fired_new = sorted({vi["instance"] for inst in cx.instances for vi in inst.violations if vi["key"] not in known})
+            # each variant is evaluated by a child process (true parallelism: rule evaluation is CPU-bound Python)
+            env = dict(os.environ, VERIF_EVIDENCE_DIR=os.path.join(tmp, "ev"), VERIF_REPLAY_DIR=os.path.join(tmp, "rp"), PYTHONHASHSEED="0")
+            pr = subprocess.run([sys.executable, os.path.abspath(__file__), prop, "quick", "--src", dst, "--target-dir", os.path.join(tmp, "tgt")],
+                                stdout=subprocess.PIPE, stderr=subprocess.STDOUT, text=True, env=env)
+            if "harness error" in pr.stdout and ("cargo check failed" in pr.stdout or "could not compile" in pr.stdout):
+                return {"name": v["name"], "ok": False, "why": "variant does not compile: " + pr.stdout[-400:]}
+            import re as _re
+            fired_new = sorted(set(_re.findall(r"rule .* instance (\S+) in ", pr.stdout)))
+            if pr.returncode != 0 and not fired_new:
+                fired_new = ["<harness error>"]
             exp = v.get("expect", [])
             if v.get("expect_any"):
                 ok = bool(fired_new)
